@@ -856,6 +856,8 @@ class Interp:
                 return fn.src
             if fn.name in ("asend", "athrow"):
                 return Pending(fn.name, fn.src, args[0] if args else None)
+            if fn.name in ("send", "throw"):
+                return (yield from self.src_op(fn.src, fn.name, args[0] if args else None, site))
             if fn.name == "__next__":
                 return (yield from self.pull(fn.src))
         if isinstance(fn, EnvGenMethod):
@@ -993,6 +995,22 @@ class Interp:
             return r
         raise Unsupported(f"pull from {it!r}")
 
+    def src_op(self, src, op, arg, site):
+        """send / throw forwarded to a user generator-like source: one environment event"""
+        stop = "StopAsyncIteration" if self.side == "impl" else "StopIteration"
+        if src.state in ("exhausted", "raised") or (src.state == "closed" and (self.side == "impl" or src.ended)):
+            if op == "throw":
+                raise PyRaise(arg)
+            raise PyRaise(ExcVal(stop, ident="end"))
+        resp = yield Ev("SrcOp", src, op, arg, site=site)
+        self.ctx.evseq += 1
+        kind, payload = resp
+        if kind == "item":
+            return payload
+        if kind == "end":
+            raise PyRaise(ExcVal(stop, ident="end"))
+        raise PyRaise(payload)
+
     def cm_op(self, cm, op, args, site):
         """enter / exit of a user context manager (or lock): one environment event"""
         resp = yield Ev("CM", cm, op, args, site=site)
@@ -1070,14 +1088,7 @@ class Interp:
             if k == "gen_athrow":
                 return (yield from aw.target.athrow(aw.arg))
             if k in ("asend", "athrow"):
-                resp = yield Ev("SrcOp", aw.target, k, aw.arg, site=site)
-                self.ctx.evseq += 1
-                kind, payload = resp
-                if kind in ("item", "ret"):
-                    return payload
-                if kind == "end":
-                    raise PyRaise(ExcVal("StopAsyncIteration", ident="end"))
-                raise PyRaise(payload)
+                return (yield from self.src_op(aw.target, k[1:], aw.arg, site))
             if k == "cm":
                 return (yield from self.cm_op(aw.target, aw.arg[0], aw.arg[1], site))
             raise Unsupported(f"await pending {k}")
@@ -1170,8 +1181,9 @@ class Interp:
                 if not o.has_aclose:
                     raise PyRaise(ExcVal("AttributeError", ident=("attr", name)))
                 return SrcMethod(o, name)
-            if name in ("asend", "athrow"):
-                if o.kind != "gen":
+            if name in ("asend", "athrow", "send", "throw"):
+                ok = o.kind == "gen" or (o.kind == "throwonly" and name in ("athrow", "throw"))
+                if not ok or (name in ("send", "throw")) != (self.side == "ref"):
                     raise PyRaise(ExcVal("AttributeError", ident=("attr", name)))
                 return SrcMethod(o, name)
             raise PyRaise(ExcVal("AttributeError", ident=("attr", name)))
